@@ -311,6 +311,30 @@ def targetOK (c : Case) (st? : Option FState) (obs : List Ev) (err : String) (ex
     (false, s!"exit 0 but the producer of a selected target was not processed")
   else (true, "")
 
+/-- the creators a run that ends regularly has to evaluate: those whose loader is carried by a task in the closure
+    (over the table as `process` left it) of the selected tasks and sub-task placeholders, and of the FIRST regex
+    placeholder of every regex word (later ones may be skipped through `regex_group.found`) -/
+def neededCreators (c : Case) (st : FState) : List Nat :=
+  let isRxName (n : Nat) : Bool := match lookup0 st.tasks n with | some td => td.isRx | none => false
+  let plain := st.selected.filter fun n => !isRxName n
+  let rxFirst := (c.sel.getD []).filterMap fun wd =>
+    match wordKind c wd with
+    | .rx => ((matched c.pre (fun _ => none) wd.w c.pre.tasks).head?).map fun (t, _) => c.pre.rxName wd.w t
+    | _ => none
+  let tableDeps (t : Nat) : List Nat := match lookup0 st.tasks t with | some td => td.deps | none => []
+  let cl := closure tableDeps 10000 (plain ++ rxFirst) []
+  (cl.filterMap fun t => match lookup0 st.tasks t with
+    | some td => td.loader.map c.pre.creatorOf
+    | none => none).eraseDups
+
+/-- "a run that needs created tasks evaluates the creator": on a run without failure and without error every needed
+    creator has exactly one evaluation in the trace (at most one is `onceOK`) -/
+def evaluatedOK (c : Case) (st : FState) (obs : List Ev) (err : String) (exit : Nat) : Bool × String :=
+  let failed := obs.any fun e => match e with | .failure _ => true | .unmet _ => true | _ => false
+  if failed || err != "none" || exit != 0 then (true, "") else
+  let missing := (neededCreators c st).filter fun cr => obs.count (.creator cr) != 1
+  if missing.isEmpty then (true, "") else (false, s!"run ended with exit 0 but creators {missing} were not evaluated exactly once")
+
 def boolJ (b : Bool) : Json := Json.bool b
 
 /-- length of the shortest prefix (oldest first) on which the monitor `f` (newest first) is false; 0 = never -/
@@ -355,6 +379,7 @@ def handle (j : Json) : Json :=
       | none => false
     let deps := depsAll c st
     let tgt := targetOK c (some st) obsAll obsErr obsExit
+    let evd := evaluatedOK c st obsAll obsErr obsExit
     let rev := obsAll.reverse
     Json.mkObj [
       ("filter", Json.str "ok"),
@@ -367,7 +392,8 @@ def handle (j : Json) : Json :=
       ("wf", Json.mkObj [("resolves", boolJ (resolvesB inp)), ("covers", boolJ (coversB inp)), ("trig", boolJ (trigB inp)), ("rx", boolJ (rxB inp)), ("noredef", boolJ (noRedefB inp))]),
       ("prop", Json.mkObj [("once", boolJ (onceOK rev)), ("after", boolJ (afterOK (trigOf inp) rev)),
                            ("obey", boolJ (obeyOK deps inp.noAct rev)), ("utd", boolJ (utdOK inp.utd rev)),
-                           ("target", boolJ tgt.1), ("target_why", Json.str tgt.2)]),
+                           ("target", boolJ tgt.1), ("target_why", Json.str tgt.2),
+                           ("evaluated", boolJ evd.1), ("evaluated_why", Json.str evd.2)]),
       ("bad_at", Json.mkObj [("once", toJson (firstBad onceOK obsAll)), ("after", toJson (firstBad (afterOK (trigOf inp)) obsAll)),
                              ("obey", toJson (firstBad (obeyOK deps inp.noAct) obsAll)),
                              ("utd", toJson (firstBad (utdOK inp.utd) obsAll))]),
